@@ -98,6 +98,10 @@ def run_case(case, chooser):
     w = rig.world
     if case.get("split_all"):
         w.net.split_policy = all_split_positions
+    if case.get("sndbuf") is not None:
+        # the transport keeps what the kernel has not taken yet *by reference* (as asyncio does): a backend or a stream
+        # that re-uses its buffer for the next block changes bytes that are still waiting to be sent
+        w.net.sndbuf = case["sndbuf"]
     problems = []
     old = OLD if target == "old" else None
     ckw = {"passive_commands": (case.get("passive", "epsv"),), "path_io_factory": a.MemoryPathIO}
@@ -283,6 +287,15 @@ def grid(tier):
             for rs in (1, 4, 8192):
                 items.append(({"op": "RETR", "target": "old", "n": len(OLD), "k": k, "b": b, "chunks": [],
                                "readsize": rs, "backend": "shortread"}, 0, [], None))
+    for backend in ("memory", "pathio", "async"):
+        for b in (1, 3):
+            for k in (0, 4):
+                for sndbuf in (0, 2):
+                    items.append(({"op": "RETR", "target": "old", "n": len(OLD), "k": k, "b": b, "chunks": [],
+                                   "readsize": 8192, "backend": backend, "sndbuf": sndbuf}, 0, [], None))
+        for op, target in (("STOR", "new"), ("APPE", "old")):
+            items.append(({"op": op, "target": target, "n": 7, "k": 0, "b": 3, "chunks": [3, 2, 2], "backend": backend,
+                           "sndbuf": 1}, 0, [], None))
     # byte families, both passive modes, throttles
     for fam, data in FAMILIES.items():
         for op, target in (("STOR", "new"), ("APPE", "old")):
@@ -367,6 +380,7 @@ def run(tier, seed, t0):
               "offsets": "0, inside, at end, beyond end", "chunkings": "whole, 1-byte, b-1, b+1, all compositions for len<=5",
               "backends": ["memory", "pathio", "async", "slow", "buffered (custom: data lands at close, close() suspends)"],
               "passive": ["epsv", "pasv"], "throttle": ["off", "server read/write", "client read/write", "client limits far below the file size"],
+              "send_buffer": "data beyond a 0-2 byte kernel buffer is kept by reference until the peer takes it (buffer re-use shows)",
               "client_read_styles": ["read(n) loops", "one read() until EOF"],
               "deviation_bound": 1 if tier == "quick" else 2, "cases": len(items)}
     return report.finish(
